@@ -299,6 +299,22 @@ def step (toks : List String) : String :=
         | .error e => first ++ " || " ++ e
         | .ok g => first ++ " || OK " ++ hex g ++ " || " ++ (respOp cfg [g]).1
     | _, _ => "bad-op"
+  | ["RESPDEC", tree, ov, hl, ds] =>
+    -- a response parsed under the calling protocol, then `decode_body_as_text` and `decode_body` on what was parsed
+    match optLim none hl, (ds.splitOn "|").mapM unhex with
+    | some hl, some ds =>
+      let cfg : RespCfg := { hl := hl, ov := ov = "1", tree := ⟨tree = "1"⟩ }
+      match respOp cfg ds with
+      | (first, none) => first
+      | (first, some st) =>
+        let txt := match decodeBodyAsText st.headers st.body with
+          | .none => "NONE" | .some t => "SOME " ++ hex t | .unmodelled e => "UNMODELLED " ++ e
+        let r := decodeBody gunzip (deflateOf (tree = "1")) st.headers st.body
+        let dec := match r.2 with
+          | some out => s!"OK {hex out} | h={showHeaders r.1}"
+          | none => s!"ERR | h={showHeaders r.1}"
+        first ++ " || TXT " ++ txt ++ " || DEC " ++ dec
+    | _, _ => "bad-op"
   | ["REQGEN", hl, method, target, hs, body] =>
     match optNat hl, unhex method, unhex target, parseHeaders hs, unhex body with
     | some hl, some m, some t, some hs, some body =>
